@@ -18,7 +18,7 @@ def clean():
 readme = open(os.path.join(seed, "README.md")).read()
 demos = [f for f in glob.glob(os.path.join(seed, "*.rs"))]
 m = re.search(r"cargo test -p (\S+)", readme)
-crate = m.group(1) if m else "maybenot"
+crate = sys.argv[4] if len(sys.argv) > 4 else (m.group(1) if m else "maybenot")
 crate_dir = {"maybenot": "crates/maybenot", "maybenot-simulator": "crates/maybenot-simulator", "maybenot-ffi": "crates/maybenot-ffi"}[crate]
 clean()
 res = {}
